@@ -1250,3 +1250,25 @@ def a_spatial_frequencies(I, args, kw):
 @_ext("numpy.tan")
 def np_tan(I, args, kw):
     return I.ctx.uf_apply("tan", [args[0]])
+
+
+@_ext("numpy.linspace")
+def np_linspace(I, args, kw):
+    """ASSUMED contract of numpy.linspace over the reals: num points start + i*step, step = (stop-start)/(num-1) with the
+    end point (num > 1), (stop-start)/num without it; a single point is `start`."""
+    a = list(args) + [None] * (3 - len(args))
+    start, stop = a[0], a[1]
+    num = a[2] if a[2] is not None else kw.get("num", 50)
+    endpoint = kw.get("endpoint", True)
+    I.ctx.trusted.add("ASSUMED contract: numpy.linspace(a, b, n, endpoint)[i] == a + i*step (A-REAL)")
+    I.ctx.oblige_implicit("linspace-num-nonnegative", to_int_z(num) >= 0)
+    span = v_sub(stop, start)
+    ep = v_truth(endpoint)
+    zn = to_int_z(num)
+    div_ep = mk(z3.If(zn > 1, z3.ToReal(zn) - 1, z3.RealVal(1)))
+    div_no = mk(z3.If(zn > 0, z3.ToReal(zn), z3.RealVal(1)))
+    step = v_ite(ep, v_truediv(span, div_ep, None), v_truediv(span, div_no, None))
+    length = mk(z3.If(zn > 0, zn, 0))
+    if isinstance(length, int) and length <= 64:
+        return Arr([v_add(start, v_mul(i, step)) for i in range(length)]) if False else tuple(v_add(start, v_mul(i, step)) for i in range(length))
+    return SymSeq(length, lambda i: v_add(start, v_mul(to_float(I, i), step)), "linspace")
